@@ -33,7 +33,7 @@ def norm(s):
 
 
 def plan(tier, seed):
-    return _strict.plan_bases(tier, quick_msgs_cfgs=3, thorough_cfgs=10, struct_per_type=(2, 8))
+    return _strict.plan_bases(tier, quick_msgs_cfgs=2, thorough_cfgs=10, struct_per_type=(1, 8))
 
 
 def row(tname, path, hexs, val):
@@ -92,7 +92,10 @@ def expected_rows(events):
                 rows.extend(pend)
                 i = j
                 continue
-            rows.append(("OPT", row(e.tname, e.path, "", "")))
+            nxt = next((c for c in events[i + 1 :] if c.kind == "M"), None)
+            has_children = nxt is not None and nxt.path[:-1] == e.path[:-1] and nxt.path[-1][0] == e.path[-1][0] and nxt.path[-1][1] is not None
+            # a list parent may have its own row; it must have one when no element row shows it (else the event is not shown at all)
+            rows.append(("OPT" if has_children else "LATE", row(e.tname, e.path, "", "")))
             i += 1
             continue
         if e.value is None:
@@ -111,6 +114,10 @@ def expected_rows(events):
 def check_pretty(t, case, mode, rec):
     from tpmstream.io.pretty import Pretty
 
+    if any(not isinstance(e.chunk, bytes) for e in t.events):
+        rec.count("event_not_re_encodable")  # C02's business; the row model needs the bytes
+        return
+
     raw = [e.raw for e in t.events]
     try:
         got = [norm(l) for l in Pretty.unmarshal(iter(raw))]
@@ -120,15 +127,20 @@ def check_pretty(t, case, mode, rec):
     exp = expected_rows(t.events)
     gi = 0
     pending = []  # optional rows (non-byte list parents): at their position or later, before they are forgotten
+    owed = []  # rows of empty lists: at their position or later, but they must appear
     for r in exp:
         if isinstance(r, tuple):
             if gi < len(got) and got[gi] == r[1]:
                 gi += 1
             else:
                 pending.append(r[1])
+                if r[0] == "LATE":
+                    owed.append(r[1])
             continue
         while gi < len(got) and got[gi] != r and got[gi] in pending:
             pending.remove(got[gi])
+            if got[gi] in owed:
+                owed.remove(got[gi])
             gi += 1
         if gi >= len(got) or got[gi] != r:
             g = got[gi] if gi < len(got) else None
@@ -138,7 +150,12 @@ def check_pretty(t, case, mode, rec):
         gi += 1
     while gi < len(got) and got[gi] in pending:
         pending.remove(got[gi])
+        if got[gi] in owed:
+            owed.remove(got[gi])
         gi += 1
+    if owed:
+        rec.violation("pretty-row", "empty-list-not-shown", f"{case.short()} mode={mode}\nthe empty list {owed[0]!r} has no row at all", case.replay(mode=mode))
+        return
     if gi != len(got):
         rec.violation("pretty-row", "extra-row", f"{case.short()} mode={mode}\nunexpected extra row {got[gi]!r}", case.replay(mode=mode))
         return
